@@ -623,7 +623,7 @@ fn kiki_item_to_ref(case: &Case, m: &Mapping, it: &kiki::data::machine::StateIte
     if it.dot > 255 {
         return None;
     }
-    Some(item(prod, it.dot as u8, la))
+    Some(item(prod, it.dot as u16, la))
 }
 
 pub fn c11_problems(case: &Case, e: &kiki::TableConflictErr, rf: &Reference) -> Vec<String> {
@@ -927,7 +927,11 @@ pub fn replay(property: &str, kind: &str, case: &Value) -> Option<Vec<Finding>> 
         "C04" => c04_case(&c, &gen, &rf, &mut acc),
         "C17" => c17_case(&c, &gen, &rf, &mut acc),
         "C11" => c11_case(&c, &gen, &rf, &mut acc),
-        "C01" | "C03" => crate::pda::model_case(&c, &gen, &rf, property, &mut acc, 8),
+        "C01" | "C03" => {
+            // deep enough for the recorded word (the scaled families explore far deeper than the small scopes)
+            let depth = case["word_indices"].as_array().map(|w| w.len()).unwrap_or(0).max(c.pres.names.get("depth").and_then(|d| d.parse().ok()).unwrap_or(0)).max(8);
+            crate::pda::model_case(&c, &gen, &rf, property, &mut acc, depth)
+        }
         _ => return None,
     }
     Some(acc.findings)
